@@ -18,6 +18,7 @@
                   strings as one string constant with exactly the stored bytes;
                   objects as one string constant whose content is valid JSON with that value (Spec.Json);
                   arrays as ARRAY [ <cell> , … ] recursively;
+                  in a json/jsonb column every non-NULL value as one string constant holding valid JSON with that value;
     <type words>  one or more bare words (the column type is not stored data: pgread takes it from a fixed table).
   Nothing may follow.  Since every name and value is matched against exactly one token (or the fixed token group of a
   signed number / ARRAY[…]) and the statement skeleton around them is fixed, no name or value can end its token early,
@@ -115,10 +116,19 @@ def values (F : FloatFmt) : List GoVal → Toks → Option Toks
   | x :: y :: rest, ts => ((value F x ts).bind (one (isOp 44))).bind (values F (y :: rest))
 end
 
+/-- pg_type.dat: json = 114, jsonb = 3802 -/
+def isJsonType (typID : Int) : Bool := typID == 114 || typID == 3802
+
+/-- a cell: NULL when the row has no value (or nil) for the column; in a json/jsonb column any other value — string,
+number, boolean, array, object — must be ONE string constant holding valid JSON with that value (a bare 'abc', 5, TRUE or
+ARRAY[…] is not a JSON document and is not accepted by such a column); elsewhere the tokens of `value` -/
 def cell (F : FloatFmt) (row : Row) (col : ColumnInfo) (ts : Toks) : Option Toks :=
   match row.get col.name with
   | none => one (isWord "null") ts
-  | some v => value F v ts
+  | some .nil => one (isWord "null") ts
+  | some v =>
+    if isJsonType col.typID then one (fun t => match t with | .str s => Json.textAgrees F v s | _ => false) ts
+    else value F v ts
 
 /-- `items` separated by commas -/
 def sepBy {α} (item : α → Toks → Option Toks) : List α → Toks → Option Toks
